@@ -309,9 +309,16 @@ pub fn check_pay_transcript(ctx: &mut Ctx, w: &World, nonce_s: &Scalar, amount: 
     let mk = |legacy: u8| format!("pay-transcript {} {} {} {} {} {} {}", pay_params_args(w), hex_s(&CLOSE_SCALAR), hex_s(nonce_s), hex_s(&scalar_of_i64(amount)), hex_list(&d.flat()), hex::encode(digest), legacy);
     let toks = ctx.ask(&mk(0));
     ctx.evals += 1;
-    match transcript_bytes(&book, &toks) {
-        Some(b) if b == recorded => { ctx.count(&format!("pay-transcript:{}:match", who)); true }
-        _ => {
+    match match_transcript(ctx, &toks, recorded) {
+        TMatch::Exact => { ctx.count(&format!("pay-transcript:{}:match", who)); true }
+        TMatch::Layout(_) => { ctx.count(&format!("pay-transcript:{}:match-under-another-layout", who)); true }
+        TMatch::Omits(missing) => {
+            ctx.count(&format!("pay-transcript:{}:OMITS-ITEMS", who));
+            ctx.disagreements.push(json!({"kind": "model-vs-implementation", "case": ctx.case_id,
+                "what": format!("the pay transcript hashed by the {} omits item(s) {:?} of the model's transcript (not bound by the challenge)", who, missing), "recorded_len": recorded.len()}));
+            false
+        }
+        TMatch::No => {
             ctx.count(&format!("pay-transcript:{}:MISMATCH", who));
             let toks = ctx.ask(&mk(1));
             let legacy = transcript_bytes(&book, &toks).map(|b| b == recorded).unwrap_or(false);
